@@ -92,11 +92,18 @@ static bool g_unit_exact = true;
 struct Arg
 {
   vf::Buf buf;
-  size_t n = 0;
+  size_t n = 0, off = 0;
   Arg() {}
   Arg(const std::string &s, bool exact, const std::string &tail = std::string())
   {
-    if (exact)
+    if (exact && s.empty())
+    {
+      // an empty view that ends exactly at the end of its block (vf::Buf's own empty form views
+      // byte 0 of a one-byte block, which hides a one-byte over-read such as name[0])
+      buf = vf::Buf(std::string(1, '\x7f'));
+      off = 1;
+    }
+    else if (exact)
       buf = vf::Buf(s);
     else
     {
@@ -106,7 +113,7 @@ struct Arg
     }
     n = s.size();
   }
-  nostd::string_view view() const { return nostd::string_view(buf.data(), n); }
+  nostd::string_view view() const { return nostd::string_view(buf.data() + off, n); }
   void kill(Rng &r) { r.coin() ? buf.scribble() : buf.release(); }
 };
 
@@ -1354,6 +1361,9 @@ static bool acceptable(const ViewCase &c)
   return true;
 }
 
+// off by default: the statement does not say how observations that a filter makes equal combine
+static bool g_judge_async_filtered = false;
+
 struct Finding
 {
   std::string assertion, cls, detail;
@@ -1465,7 +1475,7 @@ static void check_collection(const ViewCase &c,
     return true;
   };
   // `dev` = the field in which the stream deviates from what was expected ("" = its name)
-  auto explain_nonmatching = [&](const Stream &g, int meter, int only_instr, const std::string &dev) -> const char * {
+  auto explain_nonmatching = [&](const Stream &g, int meter, int only_instr, const std::string &dev, const ExpStream *strict = nullptr) -> const char * {
     for (size_t ii = 0; ii < c.instrs.size(); ++ii)
     {
       auto &in = c.instrs[ii];
@@ -1478,8 +1488,17 @@ static void check_collection(const ViewCase &c,
           continue;
         ExpStream p  = make_exp(static_cast<int>(ii), in, static_cast<int>(vi), &c.views[vi]);
         ExpStream p0 = make_exp(static_cast<int>(ii), in, -1, nullptr);
-        if (p.name == g.name && shape_diff(p, g).empty() && (dev.empty() ? p.name != p0.name : !field_same(p, p0, dev)))
-          return m.field;
+        if (p.name != g.name || !shape_diff(p, g).empty())
+          continue;
+        if (dev.empty() ? p.name == p0.name : field_same(p, p0, dev))
+          continue;  // the view does not itself set what deviates
+        bool filter_print = false;  // does the view's filter visibly differ from the expected one on this instrument?
+        if (strict)
+          for (auto &set : in.sets)
+            filter_print |= filter_attrs(set, p) != filter_attrs(set, *strict);
+        if (strict && p.name == strict->name && p.desc == strict->desc && !filter_print)
+          continue;  // only aggregation fields deviate: indistinguishable from a wrong default aggregation table
+        return m.field;
       }
     }
     return nullptr;
@@ -1521,11 +1540,13 @@ static void check_collection(const ViewCase &c,
     if (!d.empty())
     {
       // (everything but the filter carries the expected view's settings: no other view explains it better)
-      const char *f = d == "attribute-filter" ? nullptr : explain_nonmatching(g, meter, e.instr, d);
+      bool agg_field = d == "aggregation" || d == "monotonic" || d == "boundaries" || d == "record-min-max";
+      const char *f  = d == "attribute-filter" ? nullptr : explain_nonmatching(g, meter, e.instr, d,
+                                               agg_field && (e.view < 0 || c.views[e.view].agg == sdkm::AggregationType::kDefault) ? &e : nullptr);
       if (f)
         out.push_back({"view-applied", std::string("non-matching:") + f,
                        where + "instrument " + in.name + " carries the shape of a view whose selector does not match: " + show_stream(g)});
-      else if (e.view < 0 && (d == "aggregation" || d == "monotonic" || d == "boundaries" || d == "record-min-max"))
+      else if (e.view < 0 && agg_field)
         out.push_back({"default-aggregation", type_name(e.type), where + d + " differs for unmatched instrument: " + show_stream(g)});
       else
       {
@@ -1542,7 +1563,7 @@ static void check_collection(const ViewCase &c,
       out.push_back({"stream-values", "no-points", where + origin + " on " + in.name + " gave " + show_stream(g)});
       continue;
     }
-    if (is_async(in.kind) && (e.has_filter || !e.default_kind))
+    if (is_async(in.kind) && ((e.has_filter && !g_judge_async_filtered) || !e.default_kind))
       continue;  // values of re-aggregated observations are not defined by the statement
     // expected points
     std::map<Attrs, std::vector<double>> window, all;
@@ -1578,12 +1599,13 @@ static void check_collection(const ViewCase &c,
       if (is_async(in.kind))
       {
         // default aggregation of an observable: the reported value, or its increase for a delta sum
+        // (with --param judge_async_filtered=1: observations that the filter makes equal are summed)
         double cur = 0, prev = 0;
         for (size_t s = 0; s < in.sets.size(); ++s)
-          if (in.sets[s] == kv.first)
+          if (filter_attrs(in.sets[s], e) == kv.first)
           {
-            cur  = in.vals[round][s][0];
-            prev = round ? in.vals[round - 1][s][0] : 0;
+            cur += in.vals[round][s][0];
+            prev += round ? in.vals[round - 1][s][0] : 0;
           }
         if (e.pkind == kPSum)
         {
@@ -1630,9 +1652,27 @@ static void check_collection(const ViewCase &c,
       }
     }
   }
+  // an instrument none of whose streams arrived was not created at all (its name is valid by construction)
+  std::set<int> silent;
+  for (size_t ii = 0; ii < c.instrs.size(); ++ii)
+  {
+    bool any_seen = false, any_required = false;
+    for (size_t k = 0; k < exp.size(); ++k)
+      if (exp[k].instr == static_cast<int>(ii))
+      {
+        any_seen |= seen[k];
+        any_required |= !exp[k].optional;
+      }
+    if (!any_seen && any_required)
+    {
+      silent.insert(static_cast<int>(ii));
+      out.push_back({"valid-instrument-has-stream", "views",
+                     where + "instrument " + c.instrs[ii].name + " (" + type_name(kind_type(c.instrs[ii].kind)) + ") produced no stream at all"});
+    }
+  }
   for (size_t k = 0; k < exp.size(); ++k)
   {
-    if (seen[k] || exp[k].optional)
+    if (seen[k] || exp[k].optional || silent.count(exp[k].instr))
       continue;
     const ExpStream &e  = exp[k];
     const InstrSpec &in = c.instrs[e.instr];
@@ -1646,14 +1686,18 @@ static void check_collection(const ViewCase &c,
         out.push_back({"default-stream-missing", type_name(e.type), where + "unmatched instrument " + in.name + " has no stream"});
       continue;
     }
+    // signature of the registry keyed by instrument name: the stream of the LAST matching view
+    // arrives, those of the earlier matching views do not
     int matching = 0, last = -1;
+    bool last_arrived = false;
     for (size_t j = 0; j < exp.size(); ++j)
       if (exp[j].instr == e.instr && exp[j].view >= 0)
       {
         ++matching;
-        last = exp[j].view;
+        last         = exp[j].view;
+        last_arrived = seen[j] || exp[j].optional;
       }
-    if (matching >= 2 && e.view != last)
+    if (matching >= 2 && e.view != last && last_arrived)
       out.push_back({"view-applied", "second-matching-view",
                      where + std::to_string(matching) + " views match instrument " + in.name + " (" + type_name(e.type) +
                          "); no stream " + vf::show(e.name) + " for " + show_view(c.views[e.view]) +
@@ -1729,6 +1773,16 @@ static void views_case(uint64_t seed)
     b.kill(r);
     s.kill(r);
   }
+  for (size_t a = 0; a < meters.size(); ++a)
+    for (size_t b = 0; b < a; ++b)
+      if (meters[a].get() == meters[b].get())
+      {
+        const char *f = c.meters[a].name != c.meters[b].name ? "name" : c.meters[a].version != c.meters[b].version ? "version" : "schema";
+        R.violation("different-identity-different-object", std::string("metrics:") + f,
+                    "views run: meters " + c.meters[a].name + "|" + c.meters[a].version + "|" + c.meters[a].schema + " and " +
+                        c.meters[b].name + "|" + c.meters[b].version + "|" + c.meters[b].schema + " are the same object");
+        return;
+      }
   std::vector<std::unique_ptr<Instr>> instrs;
   for (auto &in : c.instrs)
   {
@@ -1782,9 +1836,12 @@ static void views_case(uint64_t seed)
       resolved_other = true;
     }
   }
+  bool misapplied = false;
+  for (auto &f : findings)
+    misapplied |= f.assertion == "view-applied" && f.cls.compare(0, 12, "non-matching") == 0;
   std::set<std::string> reported;
   for (auto &f : findings)
-    if (reported.insert(f.assertion + "/" + f.cls).second)
+    if ((!misapplied || f.assertion == "view-applied") && reported.insert(f.assertion + "/" + f.cls).second)
       R.violation(f.assertion, f.cls, f.detail + " || case: " + show_case(c));
 
   // coverage
@@ -2049,7 +2106,7 @@ static const std::vector<std::string> kSchemas    = {"", "s1", "https://x/s2"};
 static const std::vector<Attrs> kScopeAttrs       = {{}, {}, {{"team", "a"}}, {{"team", "b"}}, {{"team", "a"}, {"tier", "1"}}};
 
 // pointer identity over a sequence of requests
-static void check_identity(const char *signal,
+static bool check_identity(const char *signal,
                            const std::vector<ScopeId> &ids,
                            const std::vector<const void *> &ptrs,
                            const std::vector<bool> &enabled,
@@ -2069,7 +2126,7 @@ static void check_identity(const char *signal,
         R.violation("same-identity-same-object", std::string(signal) + (enabled[i] ? "" : ":disabled-scope"),
                     "request " + std::to_string(j) + " and " + std::to_string(i) + " for " + show_scope(ids[i]) +
                         " returned different objects; " + ctx);
-        return;
+        return false;
       }
       if (!same_id && ptrs[i] == ptrs[j])
       {
@@ -2080,9 +2137,10 @@ static void check_identity(const char *signal,
                                                                  : "attributes";
         R.violation("different-identity-different-object", std::string(signal) + ":" + f,
                     show_scope(ids[j]) + " and " + show_scope(ids[i]) + " returned the same object; " + ctx);
-        return;
+        return false;
       }
     }
+  return true;
 }
 
 static void check_telemetry(const char *signal,
@@ -2286,8 +2344,8 @@ static void scopes_case(uint64_t seed)
         span->End();
       }
       std::string ctx = rules;
-      check_identity("traces", ids, ptrs, enabled, ctx);
-      check_telemetry("traces", ids, enabled, got, ctx);
+      if (check_identity("traces", ids, ptrs, enabled, ctx))
+        check_telemetry("traces", ids, enabled, got, ctx);
       keep.clear();
     }
   }
@@ -2341,8 +2399,8 @@ static void scopes_case(uint64_t seed)
     std::vector<SpanRec> got;
     for (auto &st : collect(*reader))
       got.push_back({st.name, st.sname, st.sver, st.sschema});
-    check_identity("metrics", ids, ptrs, enabled, rules);
-    check_telemetry("metrics", ids, enabled, got, rules);
+    if (check_identity("metrics", ids, ptrs, enabled, rules))
+      check_telemetry("metrics", ids, enabled, got, rules);
     instrs.clear();
     keep.clear();
   }
@@ -2389,8 +2447,8 @@ static void scopes_case(uint64_t seed)
           lg->EmitLogRecord(std::move(rec));
         }
       }
-      check_identity("logs", ids, ptrs, enabled, rules);
-      check_telemetry("logs", ids, enabled, got, rules);
+      if (check_identity("logs", ids, ptrs, enabled, rules))
+        check_telemetry("logs", ids, enabled, got, rules);
       keep.clear();
     }
   }
@@ -2423,7 +2481,8 @@ int main(int argc, char **argv)
   }
   else if (mode == "tail")
     g_name_exact = g_unit_exact = false;
-  uint64_t eng = vf::fnv1a(engine);
+  g_judge_async_filtered = R.opt.param("judge_async_filtered", 0) != 0;
+  uint64_t eng           = vf::fnv1a(engine);
   R.run_cases([&](uint64_t i) {
     if (engine == "names")
       names_case(i, vf::mix(R.case_seed(i), eng));
